@@ -16,7 +16,7 @@
 EXTENDS Grid, TLC
 
 Keys == {"num_cols", "num_rows", "data", "extra"}
-SmallDims == 0..3
+SmallDims == 0..999                                 \* dimensions that stand for themselves
 \* (TLC cannot compare strings with integers, so the symbolic tokens are integer codes)
 P32 == 1001  P63 == 1002  MAXU == 1003                  \* 2^32, 2^63, 2^64-1
 P64 == 2001  NEG == 2002  FRAC == 2003  STR == 2004  NUL == 2005   \* 2^64, -1, 1.5, "2", null
